@@ -104,10 +104,532 @@ def accelerated_proximal_point(kw, env):
     return f.value(x) - f.value(env.xs)
 
 
+def _two_runs(step, starts, n):
+    out = []
+    for w in starts:
+        for _ in range(n):
+            w = step(w)
+        out.append(w)
+    return out
+
+
+def gradient_descent_contraction(kw, env):
+    """x_{t+1} = x_t - gamma grad f(x_t) run n steps from x_0 and from y_0;  ||x_n - y_n||^2   (||x_0 - y_0||^2 <= 1)"""
+    f = env.f[0]
+    a, b = _two_runs(lambda z: z - kw["gamma"] * f.grad(z), env.x0[:2], kw["n"])
+    return sq(a - b)
+
+
+def gradient_descent_non_convex(kw, env):
+    """x_{t+1} = x_t - gamma grad f(x_t), t < n;  min_{t <= n} ||grad f(x_t)||^2   (f(x_0) - f(x_n) <= 1)"""
+    f = env.f[0]
+    x = env.x0[0]
+    norms = [sq(f.grad(x))]
+    for _ in range(kw["n"]):
+        x = x - kw["gamma"] * f.grad(x)
+        norms.append(sq(f.grad(x)))
+    return min(norms)
+
+
+def gradient_descent_qg_convex(kw, env):
+    """x_{t+1} = x_t - gamma grad f(x_t), n steps, f convex QG+;  f(x_n) - f_*   (||x_0 - x_*||^2 <= 1)"""
+    return gradient_descent(kw, env)
+
+
+def gradient_descent_qg_convex_decreasing(kw, env):
+    """u_0 = 1, u_t = u_{t-1}/2 + sqrt((u_{t-1}/2)^2 + 2);  x_{t+1} = x_t - grad f(x_t) / (L u_{t+1}), t < n;
+    f(x_n) - f_*   (||x_0 - x_*||^2 <= 1)"""
+    f = env.f[0]
+    u = [1.0]
+    for t in range(1, kw["n"] + 1):
+        u.append(u[t - 1] / 2 + np.sqrt((u[t - 1] / 2) ** 2 + 2))
+    x = env.x0[0]
+    for t in range(kw["n"]):
+        x = x - f.grad(x) / (kw["L"] * u[t + 1])
+    return f.value(x) - f.value(env.xs)
+
+
+def gradient_descent_quadratics(kw, env):
+    """x_{t+1} = x_t - gamma grad f(x_t), n steps, f = x^T Q x / 2;  f(x_n) - f_*   (||x_0 - x_*||^2 <= 1)"""
+    return gradient_descent(kw, env)
+
+
+def _two_adic_valuation(i):
+    v = 0
+    while i % 2 == 0:
+        i //= 2
+        v += 1
+    return v
+
+
+def gradient_descent_silver_stepsize_convex(kw, env):
+    """silver schedule of Altschuler-Parrilo II: gamma_t = (1 + rho^(nu(t+1) - 1)) / L, rho = 1 + sqrt 2, nu = 2-adic valuation;
+    x_{t+1} = x_t - gamma_t grad f(x_t) for the largest n' = 2^k - 1 <= n steps;  f(x_n') - f_*   (||x_0 - x_*||^2 <= 1)"""
+    f = env.f[0]
+    n = 1
+    while 2 * n + 1 <= kw["n"]:
+        n = 2 * n + 1
+    if kw["n"] < 1:
+        n = 0
+    rho = 1 + np.sqrt(2.0)
+    x = env.x0[0]
+    for t in range(n):
+        x = x - (1 + rho ** (_two_adic_valuation(t + 1) - 1)) / kw["L"] * f.grad(x)
+    return f.value(x) - f.value(env.xs)
+
+
+def _silver_strongly_convex(k, kappa):
+    """normalised silver steps (Altschuler-Parrilo I) of length 2^k and the last z: h^(1) = [psi(1/kappa)],
+    h^(2m) = [h~^(m), psi(y_2m), h~^(m), psi(z_2m)] with h~ = h without its last entry, psi(t) = (1 + kappa t) / (1 + t),
+    z_1 = 1/kappa, eta = 1 - z_m, y_2m = z_m / (eta + sqrt(1 + eta^2)), z_2m = z_m (eta + sqrt(1 + eta^2))"""
+    psi = lambda t: (1 + kappa * t) / (1 + t)
+    z = 1.0 / kappa
+    h = [psi(z)]
+    for _ in range(k):
+        eta = 1 - z
+        r = eta + np.sqrt(1 + eta ** 2)
+        y, z = z / r, z * r
+        h = h[:-1] + [psi(y)] + h[:-1] + [psi(z)]
+    return h
+
+
+def gradient_descent_silver_stepsize_strongly_convex(kw, env):
+    """x_{t+1} = x_t - h_t / L grad f(x_t) with the silver schedule of Altschuler-Parrilo I (n = sum of powers of 2: the
+    schedules of these lengths one after the other, shortest first);  ||x_n - x_*||^2   (||x_0 - x_*||^2 <= 1)"""
+    f = env.f[0]
+    n, L = kw["n"], kw["L"]
+    h = []
+    k = 0
+    while (1 << k) <= n:
+        if n & (1 << k):
+            h += _silver_strongly_convex(k, L / kw["mu"])
+        k += 1
+    assert len(h) == n
+    x = env.x0[0]
+    for t in range(n):
+        x = x - h[t] / L * f.grad(x)
+    return sq(x - env.xs)
+
+
+def accelerated_gradient_strongly_convex(kw, env):
+    """x_{-1} = x_0;  y_t = x_t + (sqrt L - sqrt mu)/(sqrt L + sqrt mu) (x_t - x_{t-1}),  x_{t+1} = y_t - grad f(y_t) / L, t < n;
+    f(x_n) - f_*   (f(x_0) - f_* + mu/2 ||x_0 - x_*||^2 <= 1)"""
+    f = env.f[0]
+    L, mu = kw["L"], kw["mu"]
+    c = (np.sqrt(L) - np.sqrt(mu)) / (np.sqrt(L) + np.sqrt(mu))
+    xp = x = env.x0[0]
+    for _ in range(kw["n"]):
+        y = x + c * (x - xp)
+        xp, x = x, y - f.grad(y) / L
+    return f.value(x) - f.value(env.xs)
+
+
+def heavy_ball_momentum(kw, env):
+    """x_{-1} = x_0;  x_{t+1} = x_t - alpha grad f(x_t) + beta (x_t - x_{t-1}), t < n;  f(x_n) - f_*   (f(x_0) - f_* <= 1)"""
+    f = env.f[0]
+    xp = x = env.x0[0]
+    for _ in range(kw["n"]):
+        xp, x = x, x - kw["alpha"] * f.grad(x) + kw["beta"] * (x - xp)
+    return f.value(x) - f.value(env.xs)
+
+
+def heavy_ball_momentum_qg_convex(kw, env):
+    """x_{-1} = x_0;  x_{t+1} = x_t - grad f(x_t) / (L (t + 2)) + t / (t + 2) (x_t - x_{t-1}), t < n;
+    f(x_n) - f_*   (||x_0 - x_*||^2 <= 1)"""
+    f = env.f[0]
+    xp = x = env.x0[0]
+    for t in range(kw["n"]):
+        xp, x = x, x - f.grad(x) / (kw["L"] * (t + 2)) + t / (t + 2.0) * (x - xp)
+    return f.value(x) - f.value(env.xs)
+
+
+def optimized_gradient_for_gradient(kw, env):
+    """th_n = 1, th_t = (1 + sqrt(4 th_{t+1}^2 + 1)) / 2 (0 < t < n), th_0 = (1 + sqrt(8 th_1^2 + 1)) / 2;  y_0 = x_0;
+    y_{t+1} = x_t - grad f(x_t) / L,
+    x_{t+1} = y_{t+1} + (th_t - 1)(2 th_{t+1} - 1) / (th_t (2 th_t - 1)) (y_{t+1} - y_t) + (2 th_{t+1} - 1)/(2 th_t - 1) (y_{t+1} - x_t);
+    ||grad f(x_n)||^2   (f(x_0) - f_* <= 1)"""
+    f = env.f[0]
+    n = kw["n"]
+    th = [None] * (n + 1)
+    th[n] = 1.0
+    for t in range(n - 1, 0, -1):
+        th[t] = (1 + np.sqrt(4 * th[t + 1] ** 2 + 1)) / 2
+    if n >= 1:
+        th[0] = (1 + np.sqrt(8 * th[1] ** 2 + 1)) / 2
+    x = y = env.x0[0]
+    for t in range(n):
+        yn = x - f.grad(x) / kw["L"]
+        x = (yn + (th[t] - 1) * (2 * th[t + 1] - 1) / (th[t] * (2 * th[t] - 1)) * (yn - y)
+             + (2 * th[t + 1] - 1) / (2 * th[t] - 1) * (yn - x))
+        y = yn
+    return sq(f.grad(x))
+
+
+def proximal_point(kw, env):
+    """x_{t+1} = argmin_x f(x) + ||x - x_t||^2 / (2 gamma), t < n;  f(x_n) - f_*   (||x_0 - x_*||^2 <= 1)"""
+    f = env.f[0]
+    x = env.x0[0]
+    for _ in range(kw["n"]):
+        x = f.prox(x, kw["gamma"])
+    return f.value(x) - f.value(env.xs)
+
+
+def proximal_gradient(kw, env):
+    """y_t = x_t - gamma grad f1(x_t),  x_{t+1} = prox_{gamma f2}(y_t), t < n;  ||x_n - x_*||^2   (||x_0 - x_*||^2 <= 1),
+    x_* a minimiser of f1 + f2"""
+    f1, f2 = env.f[0], env.f[1]
+    x = env.x0[0]
+    for _ in range(kw["n"]):
+        x = f2.prox(x - kw["gamma"] * f1.grad(x), kw["gamma"])
+    return sq(x - env.xs)
+
+
+def proximal_gradient_quadratics(kw, env):
+    """y_t = x_t - gamma grad f1(x_t),  x_{t+1} = prox_{gamma f2}(y_t), t < n, f1 quadratic;  ||x_n - x_*||^2   (||x_0 - x_*||^2 <= 1)"""
+    return proximal_gradient(kw, env)
+
+
+def accelerated_proximal_gradient_method(kw, env):
+    """y_0 = x_0;  x_{t+1} = prox_{h / L}(y_t - grad f(y_t) / L),  y_{t+1} = x_{t+1} + t / (t + 3) (x_{t+1} - x_t), t < n;
+    F(x_n) - F(x_*), F = f + h   (||x_0 - x_*||^2 <= 1)"""
+    f, h = env.f[0], env.f[1]
+    L = kw["L"]
+    x = y = env.x0[0]
+    for t in range(kw["n"]):
+        xn = h.prox(y - f.grad(y) / L, 1.0 / L)
+        y = xn + t / (t + 3.0) * (xn - x)
+        x = xn
+    F = lambda z: f.value(z) + h.value(z)
+    return F(x) - F(env.xs)
+
+
+def douglas_rachford_splitting(kw, env):
+    """w_0 given;  x_t = prox_{alpha f2}(w_t),  y_t = prox_{alpha f1}(2 x_t - w_t),  w_{t+1} = w_t + theta (y_t - x_t), n iterations;
+    F(y) - F(x_*) at the y of the n-th iteration, F = f1 + f2   (||x_0 - x_*||^2 <= 1, x_0 = prox_{alpha f2}(w_0))"""
+    f1, f2 = env.f[0], env.f[1]
+    a = kw["alpha"]
+    w = env.x0[0]
+    y = None
+    for _ in range(kw["n"]):
+        x = f2.prox(w, a)
+        y = f1.prox(2 * x - w, a)
+        w = w + kw["theta"] * (y - x)
+    F = lambda z: f1.value(z) + f2.value(z)
+    return F(y) - F(env.xs)
+
+
+def accelerated_douglas_rachford_splitting(kw, env):
+    """u_0 = w_0, theta = (1 - alpha L)/(1 + alpha L);  x_t = prox_{alpha f2}(u_t),  y_t = prox_{alpha f1}(2 x_t - u_t),
+    w_{t+1} = u_t + theta (y_t - x_t),  u_{t+1} = w_{t+1} + (t - 1)/(t + 2) (w_{t+1} - w_t) if t > 1 else w_{t+1}, n iterations;
+    F(y) - F(x_*) at the y of the n-th iteration, F = f1 + f2   (||w_0 - w_*||^2 <= 1, x_* = prox_{alpha f2}(w_*))"""
+    f1, f2 = env.f[0], env.f[1]
+    a = kw["alpha"]
+    th = (1 - a * kw["L"]) / (1 + a * kw["L"])
+    u = w = env.x0[0]
+    y = None
+    for t in range(kw["n"]):
+        x = f2.prox(u, a)
+        y = f1.prox(2 * x - u, a)
+        wn = u + th * (y - x)
+        u = wn + (t - 1) / (t + 2.0) * (wn - w) if t > 1 else wn
+        w = wn
+    F = lambda z: f1.value(z) + f2.value(z)
+    return F(y) - F(env.xs)
+
+
+def three_operator_splitting(kw, env):
+    """from w_0 and from w_0':  x_t = prox_{alpha f2}(w_t),  y_t = prox_{alpha f1}(2 x_t - w_t - alpha grad f3(x_t)),
+    w_{t+1} = w_t + theta (y_t - x_t), t < n;  ||w_n - w_n'||^2   (||w_0 - w_0'||^2 <= 1)"""
+    f1, f2, f3 = env.f[0], env.f[1], env.f[2]
+    a = kw["alpha"]
+
+    def step(w):
+        x = f2.prox(w, a)
+        y = f1.prox(2 * x - w - a * f3.grad(x), a)
+        return w + kw["theta"] * (y - x)
+    p, q = _two_runs(step, env.x0[:2], kw["n"])
+    return sq(p - q)
+
+
+def halpern_iteration(kw, env):
+    """x_{t+1} = x_0 / (t + 2) + (1 - 1/(t + 2)) A x_t, t < n;  ||x_n - A x_n||^2   (||x_0 - x_*||^2 <= 1, x_* = A x_*)"""
+    A = env.f[0]
+    x0 = x = env.x0[0]
+    for t in range(kw["n"]):
+        x = x0 / (t + 2.0) + (1 - 1 / (t + 2.0)) * A.apply(x)
+    return sq(x - A.apply(x))
+
+
+def wc_optimal_contractive_halpern_iteration(kw, env):
+    """phi_k = sum_{i <= k} gamma^(2i);  x_{t+1} = (1 - 1/phi_{t+1}) A x_t + x_0 / phi_{t+1}, t < n, A (1/gamma)-Lipschitz;
+    ||x_n - A x_n||^2   (||x_0 - x_*||^2 <= 1)"""
+    A = env.f[0]
+    g = kw["gamma"]
+    x0 = x = env.x0[0]
+    for t in range(kw["n"]):
+        phi = sum(g ** (2 * i) for i in range(t + 2))
+        x = (1 - 1 / phi) * A.apply(x) + x0 / phi
+    return sq(x - A.apply(x))
+
+
+def krasnoselskii_mann_constant_step_sizes(kw, env):
+    """x_{t+1} = (1 - gamma) x_t + gamma A x_t, t < n;  ||x_n - A x_n||^2 / 4   (||x_0 - x_*||^2 <= 1)"""
+    A = env.f[0]
+    x = env.x0[0]
+    for _ in range(kw["n"]):
+        x = (1 - kw["gamma"]) * x + kw["gamma"] * A.apply(x)
+    return sq(x - A.apply(x)) / 4
+
+
+def krasnoselskii_mann_increasing_step_sizes(kw, env):
+    """x_{t+1} = x_t / (t + 2) + (1 - 1/(t + 2)) A x_t, t < n;  ||x_n - A x_n||^2 / 4   (||x_0 - x_*||^2 <= 1)"""
+    A = env.f[0]
+    x = env.x0[0]
+    for t in range(kw["n"]):
+        x = x / (t + 2.0) + (1 - 1 / (t + 2.0)) * A.apply(x)
+    return sq(x - A.apply(x)) / 4
+
+
+def proximal_point_method_operators(kw, env):
+    """x_{t+1} = J_{alpha A}(x_t), t < n;  ||x_n - x_{n-1}||^2   (||x_0 - x_*||^2 <= 1, 0 in A x_*)"""
+    A = env.f[0]
+    xp = x = env.x0[0]
+    for _ in range(kw["n"]):
+        xp, x = x, A.resolvent(x, kw["alpha"])
+    return sq(x - xp)
+
+
+def douglas_rachford_splitting_operators(kw, env):
+    """one iteration from w and from w':  x = J_{alpha B}(w),  y = J_{alpha A}(2 x - w),  w+ = w - theta (x - y)
+    (A Lipschitz monotone, B strongly monotone);  ||w+ - w'+||^2   (||w - w'||^2 <= 1)"""
+    A, B = env.f[0], env.f[1]
+    a = kw["alpha"]
+
+    def step(w):
+        x = B.resolvent(w, a)
+        y = A.resolvent(2 * x - w, a)
+        return w - kw["theta"] * (x - y)
+    p, q = _two_runs(step, env.x0[:2], 1)
+    return sq(p - q)
+
+
+def wc_optimal_strongly_monotone_proximal_point_operators(kw, env):
+    """phi_k = sum_{i <= k} (1 + 2 mu)^(2i), phi_{-1} = 0, x_0 = y_0 = y_{-1};  x_{t+1} = J_A y_t,
+    y_{t+1} = x_{t+1} + (phi_t - 1)/phi_{t+1} (x_{t+1} - x_t) - 2 mu phi_t/phi_{t+1} (y_t - x_{t+1})
+              + (1 + 2 mu) phi_{t-1}/phi_{t+1} (y_{t-1} - x_t), t < n;
+    ||y_{n-1} - x_n||^2 (the resolvent residual at x_n)   (||x_0 - x_*||^2 <= 1)"""
+    A = env.f[0]
+    mu = kw["mu"]
+    phi = lambda k: sum((1 + 2 * mu) ** (2 * i) for i in range(k + 1))
+    x = y = yp = env.x0[0]
+    for t in range(kw["n"]):
+        xn = A.resolvent(y, 1.0)
+        yn = (xn + (phi(t) - 1) / phi(t + 1) * (xn - x) - 2 * mu * phi(t) / phi(t + 1) * (y - xn)
+              + (1 + 2 * mu) * phi(t - 1) / phi(t + 1) * (yp - x))
+        x, yp, y = xn, y, yn
+    return sq(yp - x)
+
+
+def subgradient_method(kw, env):
+    """x_{t+1} = x_t - gamma g_t, g_t in df(x_t), t < n (only run where f is differentiable along the path);
+    min_{0 <= t <= n} f(x_t) - f_*   (||x_0 - x_*||^2 <= 1)"""
+    f = env.f[0]
+    x = env.x0[0]
+    vals = [f.value(x)]
+    for _ in range(kw["n"]):
+        x = x - kw["gamma"] * f.grad(x)
+        vals.append(f.value(x))
+    return min(vals) - f.value(env.xs)
+
+
+def sgd(kw, env):
+    """one step x_1 = x_0 - gamma grad f_i(x_0), i uniform in 1..n;  E ||x_1 - x_*||^2 = mean over i
+    (||x_0 - x_*||^2 <= R^2, mean_i ||grad f_i(x_*)||^2 <= v^2), x_* the minimiser of mean_i f_i"""
+    fs = env.f[:kw["n"]]
+    x0 = env.x0[0]
+    return float(np.mean([sq(x0 - kw["gamma"] * fi.grad(x0) - env.xs) for fi in fs]))
+
+
+def saga(kw, env):
+    """gamma = 1/(2 (mu n + L)), c = 1/(2 n gamma (1 - mu gamma));  V = mean_i (f_i(phi_i) - f_i(x_*) - <grad f_i(x_*), phi_i - x_*>)
+    + c ||x - x_*||^2;  for j uniform: phi_j+ = x,  w = x - gamma (grad f_j(x) - grad f_j(phi_j) + mean_i grad f_i(phi_i)),
+    x+ = prox_{gamma h}(w);  E V+ = mean over j   (V <= 1)"""
+    n = kw["n"]
+    h, fs = env.f[0], env.f[1:n + 1]
+    phi, x = env.x0[:n], env.x0[n]
+    xs = env.xs
+    gamma = 1.0 / (2 * (kw["mu"] * n + kw["L"]))
+    c = 1.0 / (2 * n * gamma * (1 - kw["mu"] * gamma))
+    breg = lambda i, p: fs[i].value(p) - fs[i].value(xs) - float(np.dot(fs[i].grad(xs), p - xs))
+    gbar = sum(fs[i].grad(phi[i]) for i in range(n)) / n
+    total = 0.0
+    for j in range(n):
+        w = x - gamma * (fs[j].grad(x) - fs[j].grad(phi[j]) + gbar)
+        xn = h.prox(w, gamma)
+        total += c * sq(xn - xs) + sum(breg(i, x if i == j else phi[i]) for i in range(n)) / n
+    return total / n
+
+
+def _vi_start(env, gamma):
+    """the examples draw a point p with ||p - x_*||^2 <= 1 and start the method from x_0 = Proj_C(p), which also serves as x~_{-1}"""
+    C = env.f[0]
+    return C.prox(env.x0[0], gamma)
+
+
+def past_extragradient(kw, env):
+    """x~_{-1} = x_0 in C;  x~_t = Proj_C[x_t - gamma F(x~_{t-1})],  x_{t+1} = Proj_C[x_t - gamma F(x~_t)], t < n;
+    ||x_n - x_{n-1}||^2   (x_0 = Proj_C(p), ||p - x_*||^2 <= 1)"""
+    C, F = env.f[0], env.f[1]
+    g = kw["gamma"]
+    xp = x = xt = _vi_start(env, g)
+    for _ in range(kw["n"]):
+        xt = C.prox(x - g * F.apply(xt), g)
+        xp, x = x, C.prox(x - g * F.apply(xt), g)
+    return sq(x - xp)
+
+
+def optimistic_gradient(kw, env):
+    """x~_{-1} = x_0 in C;  x~_t = Proj_C[x_t - gamma F(x~_{t-1})],  x_{t+1} = x~_t + gamma (F(x~_{t-1}) - F(x~_t)), t < n;
+    ||x~ - x~_previous||^2 at the x~ of the n-th iteration (the docstring writes x~_n, x~_{n-1})   (x_0 = Proj_C(p), ||p - x_*||^2 <= 1)"""
+    C, F = env.f[0], env.f[1]
+    g = kw["gamma"]
+    x = xt = xtp = _vi_start(env, g)
+    for _ in range(kw["n"]):
+        xtp, xt = xt, C.prox(x - g * F.apply(xt), g)
+        x = xt + g * (F.apply(xtp) - F.apply(xt))
+    return sq(xt - xtp)
+
+
+# ---- documented readings that the example bodies do NOT follow on the unmodified tree (not registered, see DOCUMENTED_ONLY) ----
+def accelerated_gradient_convex(kw, env):
+    """y_0 = x_0;  x_{t+1} = y_t - grad f(y_t) / L,  y_{t+1} = x_{t+1} + (t - 1)/(t + 2) (x_{t+1} - x_t), t < n;
+    f(x_n) - f_*   (||x_0 - x_*||^2 <= 1)        [the body uses t/(t + 3)]"""
+    f = env.f[0]
+    x = y = env.x0[0]
+    for t in range(kw["n"]):
+        xn = y - f.grad(y) / kw["L"]
+        y = xn + (t - 1) / (t + 2.0) * (xn - x)
+        x = xn
+    return f.value(x) - f.value(env.xs)
+
+
+def triple_momentum(kw, env):
+    """rho = 1 - sqrt(mu/L), (alpha, beta, gamma, delta) = ((1 + rho)/L, rho^2/(2 - rho), rho^2/((1 + rho)(2 - rho)), rho^2/(1 - rho^2)),
+    xi_0 = xi_1 = x_0;  for t = 1..n:  y_t = (1 + gamma) xi_t - gamma xi_{t-1},  xi_{t+1} = (1 + beta) xi_t - beta xi_{t-1} - alpha grad f(y_t),
+    x_t = (1 + delta) xi_t - delta xi_{t-1};  f(x_n) - f_*   (||x_0 - x_*||^2 <= 1)        [the body returns f(x_{n+1}) - f_*]"""
+    f = env.f[0]
+    L = kw["L"]
+    rho = 1 - np.sqrt(kw["mu"] / L)
+    al, be, ga, de = (1 + rho) / L, rho ** 2 / (2 - rho), rho ** 2 / ((1 + rho) * (2 - rho)), rho ** 2 / (1 - rho ** 2)
+    xi = [env.x0[0], env.x0[0]]
+    for t in range(1, kw["n"] + 1):
+        y = (1 + ga) * xi[t] - ga * xi[t - 1]
+        xi.append((1 + be) * xi[t] - be * xi[t - 1] - al * f.grad(y))
+    n = kw["n"]
+    x = (1 + de) * xi[n] - de * xi[n - 1] if n >= 1 else env.x0[0]
+    return f.value(x) - f.value(env.xs)
+
+
+def optimized_gradient(kw, env):
+    """th_0 = 1, th_t = (1 + sqrt(4 th_{t-1}^2 + 1))/2 (t < n), th_n = (1 + sqrt(8 th_{n-1}^2 + 1))/2, y_0 = x_0;
+    x_{t+1} = y_t - grad f(y_t) / L,  y_{t+1} = x_{t+1} + (th_t - 1)/th_{t+1} (x_{t+1} - x_t) + th_t/th_{t+1} (x_{t+1} - y_t), t < n;
+    f(x_n) - f_*   (||x_0 - x_*||^2 <= 1)        [the body returns f(y_n) - f_*]"""
+    f = env.f[0]
+    n = kw["n"]
+    th = [1.0]
+    for t in range(1, n + 1):
+        th.append((1 + np.sqrt((4 if t < n else 8) * th[t - 1] ** 2 + 1)) / 2)
+    x = y = env.x0[0]
+    for t in range(n):
+        xn = y - f.grad(y) / kw["L"]
+        y = xn + (th[t] - 1) / th[t + 1] * (xn - x) + th[t] / th[t + 1] * (xn - y)
+        x = xn
+    return f.value(x) - f.value(env.xs)
+
+
+def accelerated_proximal_point_operators(kw, env):
+    """x_0 = y_0 = y_{-1};  x_{t+1} = J_{alpha A}(y_t),  y_{t+1} = x_{t+1} + t/(t + 2) (x_{t+1} - x_t) - t/(t + 1) (x_t - y_{t-1}), t < n;
+    ||x_n - y_{n-1}||^2 (the quantity of the documented bound)   (||x_0 - x_*||^2 <= 1)        [the body uses t/(t + 2) twice]"""
+    A = env.f[0]
+    x = y = yp = env.x0[0]
+    for t in range(kw["n"]):
+        xn = A.resolvent(y, kw["alpha"])
+        yn = xn + t / (t + 2.0) * (xn - x) - t / (t + 1.0) * (x - yp)
+        x, yp, y = xn, y, yn
+    return sq(x - yp)
+
+
+def three_operator_splitting_operators(kw, env):
+    """one iteration from w and from w':  x = J_{alpha B}(w),  y = J_{alpha A}(2 x - w - C x),  w+ = w - theta (x - y);
+    ||w+ - w'+||^2   (||w - w'||^2 <= 1)        [the body uses alpha C x]"""
+    A, B, C = env.f[0], env.f[1], env.f[2]
+    a = kw["alpha"]
+
+    def step(w):
+        x = B.resolvent(w, a)
+        y = A.resolvent(2 * x - w - C.grad(x), a)
+        return w - kw["theta"] * (x - y)
+    p, q = _two_runs(step, env.x0[:2], 1)
+    return sq(p - q)
+
+
+def point_saga(kw, env):
+    """gamma = sqrt((n - 1)^2 + 4 n L/mu)/(2 L n) - (1 - 1/n)/(2 L);  V(x) = mean_i ||grad f_i(x) - grad f_i(x_*)||^2 / (L mu) + ||x - x_*||^2;
+    for j uniform:  z = x + gamma (g_j - mean_i g_i),  x+ = prox_{gamma f_j}(z);  E V(x+) = mean over j   (V(x) <= 1)
+    [the body's Lyapunov function uses the table g_i, with g_j+ = (z - x+)/gamma, in place of grad f_i(x)]"""
+    n = kw["n"]
+    fs, g, x, xs = env.f[:n], env.x0[:n], env.x0[n], env.xs
+    gamma = np.sqrt((n - 1) ** 2 + 4.0 * n * kw["L"] / kw["mu"]) / (2 * kw["L"] * n) - (1 - 1.0 / n) / (2 * kw["L"])
+    V = lambda z: sum(sq(fi.grad(z) - fi.grad(xs)) for fi in fs) / (n * kw["L"] * kw["mu"]) + sq(z - xs)
+    gbar = sum(g) / n
+    return sum(V(fs[j].prox(x + gamma * (g[j] - gbar), gamma)) for j in range(n)) / n
+
+
+# name -> reading of the docstring that the selftest shows the body does not follow (kept for the record, never compared)
+DOCUMENTED_ONLY = {
+    "accelerated_gradient_convex": accelerated_gradient_convex,
+    "triple_momentum": triple_momentum,
+    "optimized_gradient": optimized_gradient,
+    "accelerated_proximal_point_operators": accelerated_proximal_point_operators,
+    "three_operator_splitting_operators": three_operator_splitting_operators,
+    "point_saga": point_saga,
+    "subgradient_method": subgradient_method,     # agrees by construction but the harness offers no differentiable Lipschitz member: 0 runs
+}
+
+
 METHODS = {
     "gradient_descent": gradient_descent,
     "douglas_rachford_splitting_contraction": douglas_rachford_splitting_contraction,
     "accelerated_proximal_point": accelerated_proximal_point,
+    "gradient_descent_contraction": gradient_descent_contraction,
+    "gradient_descent_non_convex": gradient_descent_non_convex,
+    "gradient_descent_qg_convex": gradient_descent_qg_convex,
+    "gradient_descent_qg_convex_decreasing": gradient_descent_qg_convex_decreasing,
+    "gradient_descent_quadratics": gradient_descent_quadratics,
+    "gradient_descent_silver_stepsize_convex": gradient_descent_silver_stepsize_convex,
+    "gradient_descent_silver_stepsize_strongly_convex": gradient_descent_silver_stepsize_strongly_convex,
+    "accelerated_gradient_strongly_convex": accelerated_gradient_strongly_convex,
+    "heavy_ball_momentum": heavy_ball_momentum,
+    "heavy_ball_momentum_qg_convex": heavy_ball_momentum_qg_convex,
+    "optimized_gradient_for_gradient": optimized_gradient_for_gradient,
+    "proximal_point": proximal_point,
+    "proximal_gradient": proximal_gradient,
+    "proximal_gradient_quadratics": proximal_gradient_quadratics,
+    "accelerated_proximal_gradient_method": accelerated_proximal_gradient_method,
+    "douglas_rachford_splitting": douglas_rachford_splitting,
+    "accelerated_douglas_rachford_splitting": accelerated_douglas_rachford_splitting,
+    "three_operator_splitting": three_operator_splitting,
+    "halpern_iteration": halpern_iteration,
+    "wc_optimal_contractive_halpern_iteration": wc_optimal_contractive_halpern_iteration,
+    "krasnoselskii_mann_constant_step_sizes": krasnoselskii_mann_constant_step_sizes,
+    "krasnoselskii_mann_increasing_step_sizes": krasnoselskii_mann_increasing_step_sizes,
+    "proximal_point_method_operators": proximal_point_method_operators,
+    "douglas_rachford_splitting_operators": douglas_rachford_splitting_operators,
+    "wc_optimal_strongly_monotone_proximal_point_operators": wc_optimal_strongly_monotone_proximal_point_operators,
+    "past_extragradient": past_extragradient,
+    "optimistic_gradient": optimistic_gradient,
+    "sgd": sgd,
+    "saga": saga,
 }
 
 
